@@ -303,6 +303,7 @@ def check(prog: Program, tier: str) -> Result:
     for vname in ("validate_pipe", "validate_geometric"):
         vfi = prog.func(f"{VAL}.{vname}")
         maps = {s_.targets[0].id: s_.value for s_ in ast.walk(vfi.node) if isinstance(s_, ast.Assign) and len(s_.targets) == 1 and isinstance(s_.targets[0], ast.Name) and isinstance(s_.value, ast.Dict)}
+        maps.update({k_: v_ for k_, v_ in prog.modules[vfi.module].constants.items() if isinstance(v_, ast.Dict) and k_ not in maps})  # a map hoisted to module level
         for c_ in [c_ for c_ in ast.walk(vfi.node) if isinstance(c_, ast.Call) and attr_chain(c_.func) == "validate_schema_instance"]:
             b_ = bind_args(prog.func(f"{VAL}.validate_schema_instance"), c_)
             sexp = b_.get("schema_file_name")
@@ -398,7 +399,9 @@ def _check_sections(prog: Program, res: Result):
         if sec is None or sec == "<whole instance>" or not prog.has_func(f"{VAL}.{fname}"):
             continue
         vf = prog.func(f"{VAL}.{fname}")
-        files = sorted({n_.value for n_ in ast.walk(vf.node) if isinstance(n_, ast.Constant) and isinstance(n_.value, str) and n_.value.endswith(".schema.json")})
+        from ..model import visible_nodes
+
+        files = sorted({n_.value for n_ in visible_nodes(prog, vf) if isinstance(n_, ast.Constant) and isinstance(n_.value, str) and n_.value.endswith(".schema.json")})
         stem = sec.split("_")[0]
         okf = bool(files) and all(f_ == f"{sec}.schema.json" or f_.startswith(stem + "_") or f_ == f"{stem}.schema.json" for f_ in files)
         res.ob("R18.3", f"section '{sec}' is validated by {fname}, which reads {files}", okf, prog.loc(fi, node))
@@ -671,6 +674,15 @@ def _check_case(prog: Program, res: Result):
             if isinstance(n, ast.Assign) and len(n.targets) == 1 and isinstance(n.targets[0], ast.Name) and n.targets[0].id == param and _is_upper_of(n.value, param):
                 up_line = n.lineno if up_line is None else min(up_line, n.lineno)
         ok = up_line is not None and (first_cmp is None or up_line < first_cmp)
+        if not ok:
+            # the same thing without rebinding the parameter: every place the raw string is read upper-cases it on the spot
+            # (ENUM.__members__.get(str(p).upper()),  x = p.upper() ...) - or only puts it into a message
+            uppers = [n for n in ast.walk(fi.node) if _is_upper_of(n, param)]
+            msgs = [n for n in ast.walk(fi.node) if isinstance(n, ast.JoinedStr)]
+            loads = [n for n in ast.walk(fi.node) if isinstance(n, ast.Name) and n.id == param and isinstance(n.ctx, ast.Load)
+                     and (up_line is None or n.lineno <= up_line)]
+            covered = all(any(n is x for u in uppers for x in ast.walk(u)) or any(n is x for m_ in msgs for x in ast.walk(m_)) for n in loads)
+            ok = bool(loads) and bool(uppers) and covered
         res.ob("R18.4", f"{q.split('.')[-2]}.{q.split('.')[-1]}: '{param}' is upper-cased before it is compared", ok, prog.loc(fi, fi.node))
         if not ok:
             res.violation("R18.4", f"loader-case:{q}", prog.loc(fi, fi.node), q,
